@@ -55,6 +55,7 @@ func c19(c *Ctx) {
 	c19ToAddr(c)
 	c19Run(c)
 	c19RangedListUntouched(c)
+	c19ServiceEntriesComplete(c)
 	// "a connection to a listened port can reach only the services listed for that entry"
 	if find := c.P.Method("server", "Honeytrap", "findService"); c.Anchor(find != nil, "entry-services-only", "(*server.Honeytrap).findService") {
 		c08Candidates(c, "entry-services-only", find)
@@ -879,6 +880,26 @@ func c19ServiceList(c *Ctx, run *ssa.Function, tcall *ssa.Call, svcList ssa.Valu
 	}
 	walk(svcList)
 	for _, a := range entryAllocs {
+		// a value returned by a decode helper and stored whole in every iteration is as fresh as the helper's own local
+		wholeInLoop := false
+		for _, ref := range *a.Referrers() {
+			if st, isSt := ref.(*ssa.Store); isSt && st.Addr == ssa.Value(a) && InLoop(st.Block()) {
+				switch v := st.Val.(type) {
+				case *ssa.Extract:
+					if hc, isC := v.Tuple.(*ssa.Call); isC && hc.Call.StaticCallee() != nil && InRepo(hc.Call.StaticCallee()) {
+						wholeInLoop = true
+					}
+				case *ssa.Call:
+					if v.Call.StaticCallee() != nil && InRepo(v.Call.StaticCallee()) {
+						wholeInLoop = true
+					}
+				}
+			}
+		}
+		if wholeInLoop {
+			c.Ok("entry-struct-fresh", "Run port entry struct", p.InstrPos(a), "assigned whole from a decode helper's result in every iteration")
+			break
+		}
 		c.Check(InLoop(a.Block()) && a.Heap, "entry-struct-fresh", "Run port entry struct", p.InstrPos(a), "each [[port]] entry is decoded into a fresh zero struct", "the struct a [[port]] entry is decoded into is allocated once outside the entry loop: keys absent from a later entry (port/ports/services) keep the previous entry's values")
 		break
 	}
@@ -996,4 +1017,62 @@ func c19RangedListUntouched(c *Ctx) {
 		}
 	}
 	c.Floor(rule, 2, "loops of Run over the configured port and service lists")
+}
+
+// c19ServiceEntriesComplete: the port loop treats every key of the service table as a defined service. An entry is
+// therefore entered only once it is complete: the store of its Service comes before the entry is put into the table.
+// Entered first and completed later, an error path in between (unknown director) leaves a half-built entry with a nil
+// Service: ports that list only that service are listened on, and a connection handed to it panics in the dispatcher
+// instead of reaching the next service of the port.
+func c19ServiceEntriesComplete(c *Ctx) {
+	p := c.P
+	const rule = "service-entry-complete"
+	smT := p.Type("server", "ServiceMap")
+	if !c.Anchor(smT != nil, rule, "server.ServiceMap") {
+		return
+	}
+	n := 0
+	for _, fn := range p.FuncsIn("server") {
+		if fn.Blocks == nil || strings.HasSuffix(p.Fset.Position(fn.Pos()).Filename, "_test.go") {
+			continue
+		}
+		for _, b := range fn.Blocks {
+			for _, in := range b.Instrs {
+				mu, ok := in.(*ssa.MapUpdate)
+				if !ok {
+					continue
+				}
+				pt, ok := mu.Value.Type().Underlying().(*types.Pointer)
+				if !ok || NamedOf(pt.Elem()) != smT {
+					continue
+				}
+				n++
+				key := fmt.Sprintf("%s enters a service #%d", shortFn(fn), n)
+				good := false
+				for _, lf := range leaves(mu.Value) {
+					a, isA := lf.(*ssa.Alloc)
+					if !isA {
+						// built by a helper: every result of it must be complete – not followed here
+						if cl, isC := lf.(*ssa.Call); isC && cl.Call.StaticCallee() != nil && InRepo(cl.Call.StaticCallee()) {
+							good = true
+						}
+						continue
+					}
+					for _, ref := range *a.Referrers() {
+						fa, isFA := ref.(*ssa.FieldAddr)
+						if !isFA || fieldNameOf(fa) != "Service" {
+							continue
+						}
+						for _, r2 := range *fa.Referrers() {
+							if st, isSt := r2.(*ssa.Store); isSt && st.Addr == ssa.Value(fa) && before(st, mu) {
+								good = true
+							}
+						}
+					}
+				}
+				c.Check(good, rule, key, p.InstrPos(mu), "the entry's Service is set before it is entered", "the entry is put into the service table before its Service is set: an error path in between (the director named by the service is not enabled) leaves a defined-looking entry with a nil Service, so a port listing only that service is listened on and reserved, and a connection given to it never reaches the port's other services")
+			}
+		}
+	}
+	c.Floor(rule, 1, "Run fills serviceList")
 }
